@@ -41,6 +41,12 @@ ASSUMPTIONS = [
     "schema validation (Schema.validate, property C13) is a parameter of the model: documents rejected by validation only are "
     "compared on the builder's result with validation disabled",
     "default literals have acyclic default dependencies (finding S1b otherwise)",
+    "'the specification's type-system rules' are those of the June 2018 edition, whose grammar the parser implements (no `repeatable`, no "
+    "`interface … implements`, no schema description): the October 2021 rule against input objects that reference themselves through "
+    "non-null fields only (`input A { a: A! }`, hunt3 C11/5) is not one of them and such documents are expected to build",
+    "documents are given as text (str / bytes) or as the parser's output; hand-built Document objects that the grammar cannot produce "
+    "(`on FOO`, `Int!!`, an operation kind other than query / mutation / subscription; hunt3 C11/4) are measured every run and recorded as a "
+    "known finding",
 ]
 TRUSTED = [
     "gen/sdl.py: ref_coerce (reference literal coercion), declared (specification fold in Python), doc_json (AST -> wire format)",
@@ -475,6 +481,28 @@ def run_extend(ctx, batch):
             outcomes.add(canon(real[1]) if real[0] == "ok" else str(real))
         if len(outcomes) > 1:
             ctx.stat("extend_schema:order-dependent")
+        # hunt3 C11/1: the extension document defines the same NEW type / directive twice — build_schema rejects such
+        # a document (`Duplicate type`), extend_schema must too (it kept the last definition)
+        import copy as _copy
+        news = [i for i in B if i["k"] in ("type", "directive")]
+        if news:
+            victim = ctx.rng.choice(news)
+            dup = _copy.deepcopy(victim)
+            if dup["k"] == "type" and ctx.rng.random() < 0.5:
+                dup.update(kind="scalar", interfaces=[], fields=[], members=[], values=[], input_fields=[])
+            order = sdl.permute(ctx.rng, B)
+            order.insert(ctx.rng.randint(0, len(order)), dup)
+            strict = bool(ctx.rng.random() < 0.5)
+            b_text = sdl.render(order)
+            real = real_extend(a_text, b_text, strict)
+            ctx.count()
+            ctx.stat("extend_schema:duplicate-definition:" + real[0])
+            detail = {"base_sdl": a_text, "ext_sdl": b_text, "strict": strict, "duplicated": victim["name"]}
+            if real[0] == "ok":
+                ctx.fail("extend-schema:invalid-accepted:duplicate-%s-definition" % victim["k"],
+                         "extend_schema accepts a document that defines %s twice (the last definition wins)" % victim["name"], detail)
+            elif real[0] == "exc":
+                ctx.fail("extend-schema:%s:duplicate-definition" % real[1], "extend_schema raises " + real[1], detail)
 
 
 def run_validation_rules(ctx, batch):
@@ -557,6 +585,136 @@ def run_schema_directives(ctx):
                 ctx.fail("schema-directives:invalid-accepted", "invalid schema directive arguments are accepted", detail)
             if out[0] == "exc":
                 ctx.fail("schema-directives:%s" % out[1], "schema directive arguments: %s instead of a schema/SDL error" % out[1], detail)
+
+
+def run_source_forms(ctx):
+    """hunt3 C11/2: `bytes` is a source form of the library (`parse`, `graphql`, `validate` take it): build_schema and
+    extend_schema must build the same schema from the encoded text (the `raise` of `_document_ast` was missing)."""
+    from py_gql import build_schema
+    from py_gql.sdl import extend_schema
+    for k in range(ctx.n(6, 40)):
+        D, items = sdl.gen_doc(ctx.rng, size=1, p_ext=ctx.rng.choice([0.0, 0.5]))
+        text = sdl.render(sdl.permute(ctx.rng, items))
+        flags = {"ignore_extensions": bool(ctx.rng.random() < 0.3)}
+        ctx.count()
+        ref = real_build(text, **flags)
+        try:
+            got = ("ok", dump_schema(build_schema(text.encode("utf-8"), **flags), sort=True))
+        except _classes() as e:
+            got = ("rej", _coarse(e), type(e).__name__)
+        except Exception as e:  # noqa
+            got = ("exc", "internal:" + type(e).__name__)
+        ctx.stat("bytes-source:" + got[0])
+        if canon(list(ref)) != canon(list(got)):
+            ctx.fail("bytes-source:build_schema:%s" % (got[1] if got[0] == "exc" else "differs"),
+                     "build_schema(bytes) does not behave like build_schema(str)", {"sdl": text, "flags": flags, "special": "bytes", "got": list(got)[:2]})
+            continue
+        if ref[0] == "ok" and not flags["ignore_extensions"]:
+            ctx.count()
+            ext = "extend type %s { zz_bytes: Int }" % D["query"]
+            try:
+                a = dump_schema(extend_schema(build_schema(text), ext), sort=True)
+                b = dump_schema(extend_schema(build_schema(text), ext.encode("utf-8")), sort=True)
+                if canon(a) != canon(b):
+                    ctx.fail("bytes-source:extend_schema:differs", "extend_schema(schema, bytes) differs from extend_schema(schema, str)",
+                             {"sdl": text, "ext": ext, "special": "bytes"})
+            except Exception as e:  # noqa
+                ctx.fail("bytes-source:extend_schema:internal:" + type(e).__name__, "extend_schema(schema, bytes) raises " + type(e).__name__,
+                         {"sdl": text, "ext": ext, "special": "bytes"})
+    # not a document at all: the documented TypeError, not an AttributeError about NoneType
+    for bad in (None, 42):
+        ctx.count()
+        try:
+            build_schema(bad)
+            ctx.fail("bytes-source:non-document-accepted", "build_schema(%r) returns" % (bad,), {"special": "bytes", "value": repr(bad)})
+        except TypeError:
+            pass
+        except Exception as e:  # noqa
+            ctx.fail("bytes-source:non-document:" + type(e).__name__, "build_schema(%r) raises %s instead of TypeError" % (bad, type(e).__name__),
+                     {"special": "bytes", "value": repr(bad)})
+
+
+def run_long_chains(ctx):
+    """hunt3 C11/3: a long ACYCLIC chain of references between named types (no nesting of values or wrappers) builds
+    whatever the order of the definitions — `_build_type_map` recursed once per type on the path, so the same
+    definitions built leaf-first and overflowed the stack root-first. Direct oracle only (the by-name model has no
+    stack)."""
+    import sys
+    n = ctx.rng.choice([1200, 1500]) if ctx.tier == "quick" else ctx.rng.choice([1500, 2500])
+    shapes = {
+        "objects": ["type Query { f: T0 }"] + ["type T%d { f: T%d }" % (i, i + 1) for i in range(n)] + ["type T%d { f: Int }" % n],
+        "inputs": ["type Query { f(a: I0): Int }"] + ["input I%d { f: I%d }" % (i, i + 1) for i in range(n)] + ["input I%d { f: Int }" % n],
+        "interfaces": ["type Query implements N0 { f: Int }"] + ["interface N%d { f: N%d }" % (i, i + 1) for i in range(n)] + ["interface N%d { f: Int }" % n],
+    }
+    limit = sys.getrecursionlimit()
+    sys.setrecursionlimit(1000)
+    try:
+        for shape, defs in shapes.items():
+            if shape == "interfaces":
+                defs = ["type Query { f: N0 }"] + defs[1:]
+            outcomes = {}
+            for order in ("root-first", "leaf-first", "shuffled", "root-first+extension"):
+                d = list(defs)
+                if order == "leaf-first":
+                    d.reverse()
+                elif order == "shuffled":
+                    ctx.rng.shuffle(d)
+                elif order.endswith("extension"):
+                    d.append("extend type Query { zz: Int }")
+                ctx.count()
+                r = real_build(" ".join(d))
+                outcomes[order] = r[0] if r[0] == "ok" else (r[1] if r[0] == "exc" else r[2])
+                ctx.stat("long-chain:%s:%s" % (shape, outcomes[order]))
+            bad = sorted(o for o, v in outcomes.items() if v != "ok")
+            if bad:
+                ctx.fail("long-reference-chain:%s:%s" % (shape, outcomes[bad[0]]),
+                         "a chain of %d named types builds or not depending on the order of the definitions: %s" % (n, outcomes),
+                         {"special": "long-chain", "shape": shape, "n": n, "outcomes": outcomes})
+    finally:
+        sys.setrecursionlimit(limit)
+
+
+def run_hand_built(ctx):
+    """hunt3 C11/4: Document objects which no text can denote. The builder translates the sibling case (an enum value named
+    `true` -> SDLError) but lets these reach the type constructors (bare ValueError) or drops the unknown root."""
+    from py_gql import build_schema
+    from py_gql.lang import ast as A
+    from py_gql.lang import parse
+    cls = _classes()
+
+    def doc(text, edit):
+        d = parse(text, allow_type_system=True)
+        edit(d)
+        return d
+
+    def loc(names):
+        return lambda d: setattr(d.definitions[0], "locations", [A.Name(value=n) for n in names])
+
+    def twice(d):
+        f = d.definitions[0].fields[0]
+        f.type = A.NonNullType(type=f.type)
+
+    def op(d):
+        d.definitions[0].operation_types[1].operation = "foo"
+
+    cases = [("unknown-directive-location", doc("directive @d on FIELD type Query { f: Int }", loc(["FOO"]))),
+             ("no-directive-location", doc("directive @d on FIELD type Query { f: Int }", loc([]))),
+             ("non-null-twice", doc("type Query { f: Int! }", twice)),
+             ("unknown-operation-kind", doc("schema { query: Query mutation: Query } type Query { f: Int }", op)),
+             ("reserved-enum-value", doc("enum E { A } type Query { f: E }", lambda d: setattr(d.definitions[0].values[0].name, "value", "true")))]
+    for label, d in cases:
+        ctx.count()
+        try:
+            build_schema(d)
+            out = "accepted"
+        except cls:
+            out = None
+        except Exception as e:  # noqa
+            out = type(e).__name__
+        ctx.stat("hand-built:%s:%s" % (label, out or "rejected"))
+        if out is not None:
+            ctx.fail("hand-built-document:%s:%s" % (label, out), "a hand-built invalid Document (%s) is %s" % (label, out),
+                     {"special": "hand-built", "case": label})
 
 
 def run_special(ctx):
@@ -767,16 +925,26 @@ def run(ctx):
     run_validation_rules(ctx, batch)
     run_schema_directives(ctx)
     run_special(ctx)
+    run_hand_built(ctx)
+    run_source_forms(ctx)
+    run_long_chains(ctx)
     run_model(ctx, batch)
     ctx.extra["documents_sent_to_model"] = len(batch.cases)
 
 
 def replay(ctx, data):
     inp = data.get("input", {})
+    if inp.get("special") in ("bytes", "long-chain", "hand-built"):
+        c2 = type(ctx)(ctx.prop, ctx.tier, ctx.seed)
+        {"bytes": run_source_forms, "long-chain": run_long_chains, "hand-built": run_hand_built}[inp["special"]](c2)
+        return not any(f["kind"] == "property" and f["detail"].get("special") == inp["special"]
+                       and f["detail"].get("case") == inp.get("case") for f in c2.found)
     if inp.get("special") or inp.get("schema_directives"):
         c2 = type(ctx)(ctx.prop, ctx.tier, ctx.seed)
         (run_special if inp.get("special") else run_schema_directives)(c2)
         return not any(f["kind"] == "property" and f["detail"].get("sdl") == inp.get("sdl") for f in c2.found)
+    if "duplicated" in inp:
+        return real_extend(inp["base_sdl"], inp["ext_sdl"], inp.get("strict", True))[0] == "rej"
     if "base_sdl" in inp:
         real = real_extend(inp["base_sdl"], inp["ext_sdl"], inp.get("strict", True))
         return real[0] == "ok" and canon(real[1]) == canon(inp["expected"])
